@@ -127,7 +127,7 @@ def make_lm(V, spec, dtype):
         if hist.size(0) == 0:
             tok = torch.zeros(M, dtype=torch.long)
         else:
-            tok = hist.reshape(hist.size(0), -1).gather(0, (idx - 1).clamp(min=0).unsqueeze(0)).squeeze(0)
+            tok = (hist.flatten(1) if hist.dim() > 2 else hist).gather(0, (idx - 1).clamp(min=0).unsqueeze(0)).squeeze(0)
         return torch.where(idx == 0, h, (h * 5 + tok + 1) % HASH_MOD)
 
     def rows_of(hs, seed, zeros):
@@ -202,7 +202,7 @@ def make_lm(V, spec, dtype):
             return prev
 
         def calc_idx_log_probs(self, hist, prev, idx):
-            hist = hist.reshape(hist.size(0), -1)
+            hist = hist.flatten(1) if hist.dim() > 2 else hist
             M = hist.size(1)
             idx = idx.expand(M) if idx.dim() == 0 else idx
             hs = [hash_from(1, hist[: int(idx[m]), m].tolist()) for m in range(M)]
